@@ -15,7 +15,9 @@ import (
 	"runtime/debug"
 	"strconv"
 	"strings"
+	"sync/atomic"
 	"testing"
+	"time"
 
 	"pgregory.net/rapid"
 )
@@ -64,12 +66,57 @@ func Register[A any](prop, name string, fn func(A) *Violation) *Checker[A] {
 // reported as a violation carrying the stack, so that it shrinks and replays
 // like any other failure.
 func (c *Checker[A]) Eval(a A) (v *Violation) {
+	inFlight.Store(&flight{start: time.Now(), fail: func(msg string) { c.writeFail(a, violf("%s", msg)) }, check: c.name})
 	defer func() {
+		inFlight.Store(nil)
 		if r := recover(); r != nil {
 			v = violf("panic: %v\n%s", r, trimStack(debug.Stack()))
 		}
 	}()
 	return c.fn(a)
+}
+
+// ---- termination watchdog -----------------------------------------------------
+//
+// Every evaluation of a pure check registers itself here. A background
+// goroutine (the only place the harness looks at the wall clock) aborts the
+// process when one evaluation — a handful of library calls that normally take
+// microseconds — has been running for hangLimit: it writes the case as a replay
+// file (or, in replay mode, a "violated" result) and exits, so that a call
+// that does not terminate is reported with its input instead of stalling the
+// run until the driver's timeout.
+
+type flight struct {
+	start time.Time
+	check string
+	fail  func(msg string)
+}
+
+const hangLimit = 120 * time.Second
+
+var (
+	inFlight     atomic.Pointer[flight]
+	onHangReplay func(msg string) // set by TestReplay
+)
+
+func init() {
+	go func() {
+		for {
+			time.Sleep(2 * time.Second)
+			f := inFlight.Load()
+			if f == nil || time.Since(f.start) < hangLimit {
+				continue
+			}
+			msg := "evaluation of " + f.check + " did not terminate within " + hangLimit.String() + " (a call hangs or is pathologically slow)"
+			if onHangReplay != nil {
+				onHangReplay(msg)
+			} else {
+				f.fail(msg)
+			}
+			dumpStats()
+			os.Exit(3)
+		}
+	}()
 }
 
 func trimStack(b []byte) string {
